@@ -7,7 +7,7 @@ from . import c11_util as U
 RULE = ("APIs drawn from a grammar: package out of 8 shapes (0..3 namespace segments, v1/v1beta1/v1p1beta1/no version), 1-2 target "
         "files, 1-3 services with 1-6 RPCs (plus services that declare no RPC, alone or next to ordinary ones, and services declared in a proto sub-package next to root-package services; rpcs are unary, client-streaming, bidi or server-streaming) whose names come from a pool with Python keywords in every letter case, leading "
         "underscores, digits/acronyms and names shared between services; request messages with 0-6 fields (reserved words, random "
-        "REQUIRED flags) or non-proto-plus requests (google.iam/longrunning/protobuf); transports grpc, rest, grpc+rest; "
+        "REQUIRED flags, also on proto3-optional fields and members of a real oneof declared after plain fields) or non-proto-plus requests (google.iam/longrunning/protobuf); transports grpc, rest, grpc+rest; "
         "optionally a service YAML marking some RPCs internal (selective generation, generate_omitted_as_internal). "
         "A case is one (request, option string, yaml); distinct = distinct canonical hash of the serialized request+options; "
         "non-trivial = at least one service. T2 cases only build gapic's schema, e2e cases run the generator, "
@@ -75,7 +75,8 @@ def meta_api(r, defect_case=False):
             names = ["GetBook", "Getbook"] + [n for n in names if n.lower() != "getbook"][:2]
         for ri, rn in enumerate(names):
             forced = defect_case == "streaming" and ri < 3      # streaming stream: requests with fields (REQUIRED, reserved words)
-            if r.random() < 0.12 and not forced:
+            presence = defect_case == "presence" and ri < 3     # REQUIRED proto3-optional / real-oneof members after a plain field
+            if r.random() < 0.12 and not forced and not presence:
                 typ, dep = r.choice(NON_PP)
                 f.dep(dep)
                 inp = typ
@@ -85,13 +86,23 @@ def meta_api(r, defect_case=False):
                 fns = r.sample(FIELD_POOL, r.randint(2 if forced else 0, 6))
                 if forced and not any(x in ("class", "from", "type", "import", "in") for x in fns):
                     fns[0] = r.choice(["class", "from", "type"])
+                if presence:
+                    fns = (fns + [x for x in FIELD_POOL if x not in fns])[:max(4, len(fns))]
                 # declaration order is deliberately NOT field-number order (descending or shuffled numbers)
                 nums = list(range(1, len(fns) + 1))
                 if r.random() < 0.75:
                     nums = nums[::-1] if r.random() < 0.4 else r.sample(nums, len(nums))
                 for k, fn in enumerate(fns):
-                    m.field(fn, nums[k], r.choice(["string", "int32", "bool", "bytes"]),
-                            required=(r.random() < 0.4) or (forced and k == len(fns) - 1), repeated=r.random() < 0.15)
+                    req_ = (r.random() < 0.4) or (forced and k == len(fns) - 1)
+                    shape = r.random()
+                    if presence:
+                        req_, shape = (False, 1.0) if k == 0 else ((True, 0.05) if k == 1 else ((True, 0.2) if k == 2 else (req_, shape)))
+                    if shape < 0.12:
+                        m.field(fn, nums[k], r.choice(["string", "int32", "bool"]), required=req_, optional=True)
+                    elif shape < 0.24:
+                        m.field(fn, nums[k], r.choice(["string", "int32", "bool"]), required=req_, oneof="target")
+                    else:
+                        m.field(fn, nums[k], r.choice(["string", "int32", "bool", "bytes"]), required=req_, repeated=r.random() < 0.15)
                 inp = m.fqn
             # client-streaming / bidi / server-streaming rpcs: the fix-up table lists the request fields of EVERY rpc
             sk = None
@@ -218,6 +229,15 @@ def extra_features(case, d):
         out.append("service without rpcs")
     if any(s["sub"] for s in d["svcs"]):
         out.append("service in a proto sub-package")
+    from google.api import field_behavior_pb2 as _fb
+    for fp in req.proto_file:
+        if fp.name in req.file_to_generate:
+            for m in fp.message_type:
+                for f in m.field:
+                    if f.HasField("oneof_index") and _fb.REQUIRED in f.options.Extensions[_fb.field_behavior]:
+                        tag = "REQUIRED proto3-optional field" if f.proto3_optional else "REQUIRED oneof member"
+                        if tag not in out:
+                            out.append(tag)
     for fp in req.proto_file:
         if fp.name in req.file_to_generate:
             for sv in fp.service:
@@ -574,6 +594,7 @@ def run(ctx):
     cases += [c for c in (make_case("C15-t2-empty", i, "empty") for i in range(ctx.n(4, 24))) if c]
     cases += [c for c in (make_case("C15-t2-subpkg", i, "subpkg") for i in range(ctx.n(4, 24))) if c]
     cases += [c for c in (make_case("C15-t2-streaming", i, "streaming") for i in range(ctx.n(4, 24))) if c]
+    cases += [c for c in (make_case("C15-t2-presence", i, "presence") for i in range(ctx.n(4, 24))) if c]
     checks = run_t2(ctx, cases) + run_strings(ctx, ctx.n(150, 1500))
     failing, errors, nf = evaluate(ctx, "c15t2", checks, "T2")
     ctx.oblige(f"T2 model = gapic schema objects (gapic_metadata, client/method names, legacy_flattened_fields, snake/module names) "
@@ -586,6 +607,7 @@ def run(ctx):
     e2e += [c for c in (make_case("C15-e2e-empty", i, "empty") for i in range(ctx.n(3, 10))) if c]
     e2e += [c for c in (make_case("C15-e2e-subpkg", i, "subpkg") for i in range(ctx.n(3, 12))) if c]
     e2e += [c for c in (make_case("C15-e2e-streaming", i, "streaming") for i in range(ctx.n(3, 12))) if c]
+    e2e += [c for c in (make_case("C15-e2e-presence", i, "presence") for i in range(ctx.n(3, 12))) if c]
     checks = run_e2e(ctx, e2e)
     failing, errors, nf = evaluate(ctx, "c15t1", checks, "T1")
     ctx.oblige(f"T1 emitted gapic_metadata.json, METHOD_TO_PARAMS and emitted class/def names = model output "
